@@ -2,6 +2,7 @@
 from __future__ import annotations
 
 import copy
+import itertools
 import json
 import traceback
 import warnings
@@ -51,6 +52,8 @@ class Faults:
                 raise IndexError("list index out of range")
             if self.exc_kind == "KeyError":
                 raise KeyError("index")
+            if self.exc_kind == "NoArgs":
+                raise Marker()              # an exception without arguments (a bare `assert`, `raise ValueError`)
             raise Marker(msg)
 
 
@@ -224,7 +227,7 @@ def run_faults(rep, cases):
             judge(rep, c, k, r, kind)
             if kind.startswith("check"):
                 # the same fault raised as pandera's own error classes (a check that validates with another schema)
-                for ek in ("SchemaError", "SchemaErrors", "IndexError", "KeyError"):
+                for ek in ("SchemaError", "SchemaErrors", "IndexError", "KeyError", "NoArgs"):
                     try:
                         r = run_one(c, k, ek)
                     except Exception as e:  # noqa: BLE001
@@ -262,6 +265,57 @@ def judge(rep, c, k, r, kind=None, exc_kind="Marker"):
         return
     if not r["data_same"]:
         rep.property_failure(case, f"the caller's data was modified (outcome {o})", region=None)
+
+
+def run_multiindex_faults(rep):
+    """MultiIndex components whose data levels carry other (also repeated) names than the schema's keys, coercing or not,
+    stand-alone and inside a DataFrameSchema: a fault at every callback invocation, and no fault at all — the schema is as
+    before, the configuration is as before, the error (if any) is a schema error"""
+    import pandera as pa
+    from pandera.config import get_config_context
+    for names, level_names, coerce, inside, lazy in itertools.product(
+            ([None, None], ["i", "j"]), (["k", "k"], ["i", "j"], [None, None], ["j", "i"]), (False, True), (False, True),
+            (False, True)):
+        F = Faults()
+        mk = lambda F=F: pa.MultiIndex([  # noqa: E731
+            pa.Index(int, pa.Check(lambda s_, F=F: (F.hit("check-vec"), s_ == s_)[1]), name=names[0]),
+            pa.Index(str, pa.Check(lambda x, F=F: (F.hit("check-elem"), True)[1], element_wise=True), name=names[1])], coerce=coerce)
+        frame = pd.DataFrame({"v": [1, 2]}, index=pd.MultiIndex.from_arrays([[1, 2], ["x", "y"]], names=level_names))
+        # fault-free run first (counts the callbacks), then one run per callback
+        k = None
+        ncalls = None
+        while True:
+            F.n, F.kinds, F.at = 0, [], k
+            schema = pa.DataFrameSchema({"v": pa.Column(int)}, index=mk()) if inside else mk()
+            fp0 = c05.fp(schema)
+            cfg0 = get_config_context(validation_depth_default=None)
+            exc = None
+            with warnings.catch_warnings():
+                warnings.simplefilter("ignore")
+                try:
+                    schema.validate(frame.copy(), lazy=lazy)
+                except Exception as e:  # noqa: BLE001
+                    exc = e
+            case = {"entry": "MultiIndex" + ("-in-frame" if inside else ""), "schema_names": names, "level_names": level_names,
+                    "coerce": coerce, "lazy": lazy, "fault_at": k}
+            rep.case(case, nontrivial=k is not None)
+            rep.evaluations += 1
+            o = classify(exc)
+            rep.count(f"multiindex-fault:{'fault' if k else 'faultfree'}:{o.split(':')[0]}")
+            if o.startswith("leak:") or o == "Marker":
+                rep.property_failure(case, f"MultiIndex validation: {type(exc).__name__} escapes validate: {str(exc)[:100]}",
+                                     region=leak_region(exc) if o.startswith("leak:") else None)
+            elif c05.fp(schema) != fp0:
+                rep.property_failure(case, f"MultiIndex validation changed the schema (outcome {o}): "
+                                           f"{c05.diff_paths(json.loads(fp0), json.loads(c05.fp(schema)))}")
+            elif get_config_context(validation_depth_default=None) != cfg0:
+                rep.property_failure(case, f"MultiIndex validation left the configuration context changed (outcome {o})")
+            if ncalls is None:
+                ncalls = F.n
+                k = 0
+            k += 1
+            if k > ncalls:
+                break
 
 
 # ---- fault-free leak scan, pandas and polars ------------------------------------------------
@@ -397,7 +451,9 @@ def run(tier, replay=None):
     rng = rng_for(PROP)
     if replay:
         case = json.loads(open(replay).read())["case"]
-        if "callbacks" in case:
+        if str(case.get("entry", "")).startswith("MultiIndex"):
+            run_multiindex_faults(rep)
+        elif "callbacks" in case:
             r = run_one(case, case.get("fault_at"), case.get("fault_class", "Marker"))
             kind = r["kinds"][case["fault_at"] - 1] if case.get("fault_at") and len(r["kinds"]) >= case["fault_at"] else None
             judge(rep, case, case.get("fault_at"), r, kind, case.get("fault_class", "Marker"))
@@ -409,6 +465,7 @@ def run(tier, replay=None):
     for case in corpus_cases(PROP):
         if "callbacks" not in case:
             replay_scan_case(rep, case)
+    run_multiindex_faults(rep)
     run_leak_scan(rep, rng, 4 * n)
     run_polars_scan(rep, rng, 2 * n)
     return rep.finish(
